@@ -59,7 +59,13 @@ func ShutdownCheck(sc sim.Scenario, h *sim.History) []Problem {
 				if len(ci.causes) == 0 {
 					ci.lastQBefore = lastQ
 				}
-				ci.causes = append(ci.causes, cause{"fault", e.Seq, e.Step})
+				kind := "fault"
+				if strings.Contains(e.Err, "closed") {
+					// Recv reporting that the channel / connection was closed is how a
+					// hang-up looks on many transports: the server ends as for a peer close
+					kind = "peerclose"
+				}
+				ci.causes = append(ci.causes, cause{kind, e.Seq, e.Step})
 			}
 		case "status":
 			ev := e
